@@ -62,6 +62,16 @@ def make_scaled_numpy(k):
     return grouped_scaled_sum
 
 
+def np_like_sum(a, axis=None, keepdims=False):
+    """A combine given as a callable (NumPy reduction signature, as flox's simple combine calls it)."""
+    return np.sum(a, axis=axis, keepdims=keepdims)
+
+
+def _powmean_finalize(s, c, p=1):
+    with np.errstate(invalid="ignore", divide="ignore"):
+        return (s / c) ** p
+
+
 def make_custom(name: str):
     from flox import Aggregation
     from flox import xrdtypes as dtypes
@@ -83,7 +93,23 @@ def make_custom(name: str):
     if name == "scaled":
         return Aggregation("scaled", numpy=make_scaled_numpy(3), chunk=("sum",), combine=("sum",),
                            finalize=make_scaler(3), fill_value=0, final_fill_value=0)
+    if name == "callcomb":
+        return Aggregation("callcomb", numpy="sum", chunk=("sum",), combine=(np_like_sum,), fill_value=0, final_fill_value=0)
+    if name == "powmean":
+        # finalize takes a keyword that the caller supplies through finalize_kwargs={"p": 2}
+        return Aggregation("powmean", numpy=grouped_powmean2, chunk=("sum", "nanlen"), combine=("sum", "sum"),
+                           finalize=_powmean_finalize, fill_value=(0, 0), dtypes=(None, np.intp), final_dtype=np.floating)
     raise KeyError(name)
+
+
+def grouped_powmean2(group_idx, array, *, axis=-1, size=None, fill_value=None, dtype=None, p=1, **kw):
+    s = _npg()(group_idx, array, func="sum", axis=axis, size=size, fill_value=0)
+    c = _npg()(group_idx, array, func="len", axis=axis, size=size, fill_value=0)
+    with np.errstate(invalid="ignore", divide="ignore"):
+        return (s / c) ** p
+
+
+CUSTOM_KWARGS = {"powmean": {"finalize_kwargs": {"p": 2}}}
 
 
 def ref_custom(name: str, v: np.ndarray):
@@ -99,7 +125,11 @@ def ref_custom(name: str, v: np.ndarray):
             return np.max(v) + np.sum(v)
         if name == "scaled":
             return np.sum(v) * 3
+        if name == "callcomb":
+            return np.sum(v)
+        if name == "powmean":
+            return np.mean(v) ** 2
     raise KeyError(name)
 
 
-CUSTOM = ["sumabs", "range", "mean2", "maxplussum", "scaled"]
+CUSTOM = ["sumabs", "range", "mean2", "maxplussum", "scaled", "callcomb", "powmean"]
